@@ -26,7 +26,7 @@ func init() {
 	register(&propDef{
 		id: "C05",
 		meta: propMeta{
-			explanation: "Decides the structural content of 'advertised count = registered count': (R1) every path class of every LoadBalancedManager method changes len(balancer.upstreams) and the cluster count by the same amount (effect summaries over SSA, callee classes inlined, classes pruned only by a caller membership fact or a constant callee result); (R1b) a new balancer is always entered in the table; (R2) Add/RemoveLocalEndpoint are exact +1/-1 primitives that notify subscribers on and only on mutation; (R3) the subscriber publishes count>0 as upsert else delete for the same endpoint; (R4) balancer, table and cluster updates happen with the manager mutex held; (R5) only the manager calls the primitives. Together: equality at quiescence by induction from the empty state, for every call history and schedule. Not decided: nothing about gossip delivery (C02-C04).",
+			explanation: "Decides the structural content of 'advertised count = registered count': (R1) every path class of every LoadBalancedManager method changes len(balancer.upstreams) and the cluster count by the same amount (effect summaries over SSA, callee classes inlined, classes pruned only by a caller membership fact or a constant callee result); (R1b) a new balancer is always entered in the table; (R2) Add/RemoveLocalEndpoint are exact +1/-1 primitives that notify subscribers on and only on mutation; (R3) the subscriber publishes count>0 as upsert else delete for the same endpoint; (R4) balancer, table and cluster updates happen with the manager mutex held; (R5) only the manager calls the primitives. Together: equality at quiescence by induction from the empty state, for every call history and schedule. Not decided: nothing about gossip delivery (C02-C04). Second round: (R1d) a balancer is stored only over nothing or itself; (R2c) the count map is allocated only when nil and subscribers are recorded; (R3b) the Gossip upsert/delete facades forward their arguments; the C17 rule set runs with this check.",
 			ruleText:    "obligation = one rule instance (path class, store, call site, caller); non-trivial = its construct set is non-empty; distinct = distinct obligation keys",
 			assumptions: []string{"RemoveLocalEndpoint's not-found arm is unreachable when R1 holds (induction)", "loadBalancer objects are reachable only through LoadBalancedManager.localUpstreams (R5 + C20.L3)"},
 		},
